@@ -438,7 +438,7 @@ Lemma step_base_inv s m o :
   snd (mon_base m o (snd (step_base true false s o))) = [] /\
   Inv (fst (step_base true false s o)) (fst (mon_base m o (snd (step_base true false s o)))).
 Proof.
-  intros [ids [-> G]]. destruct o as [e ty|e|e|e ty role desc fns|e fid fn r w ps|e|e ty role|t e ty role|t|p c|p c|p|t p|t|e calls|p|add e q i];
+  intros [ids [-> G]]. destruct o as [e ty|e|e|e ty role desc fns|e fid fn r w ps|e|e ty role|t e ty role|t|p c|p c|p|t p|t|e calls|p|add e q i|e fid d];
     unfold step_base, mon_base; simpl.
   - (* NewEntity *)
     destruct (assoc_N (Npos e) (objs s)) as [o|] eqn:Eo; simpl; rewrite ?expect_ok; simpl.
@@ -586,6 +586,17 @@ Proof.
     rewrite ?expect_ok. split; [reflexivity|]. exists ids. split; [reflexivity | apply good_subs; exact G].
   - (* During: not an operation of step_base *)
     rewrite ?expect_ok. split; [reflexivity|]. exists ids. split; [reflexivity | exact G].
+  - (* SetDescr *)
+    destruct (assoc_N e (objs s)) as [o|] eqn:Eo; simpl.
+    + destruct (find_id fid (e_feats o)) as [f0|] eqn:Ef; simpl; rewrite ?expect_ok; simpl.
+      * split; [reflexivity|]. exists ids. split; [reflexivity|].
+        apply good_upd; [exact G|]. intros o' Ho'. rewrite Eo in Ho'. inversion Ho'; subst o'.
+        rewrite feats_upd_id_ids by reflexivity. rewrite feats_upd_id_trs by reflexivity.
+        split; [exact (g_nodup _ _ G _ _ Eo)|]. split; [|exact (g_tr _ _ G _ _ Eo)].
+        intros f Hf. apply (in_map f_id) in Hf. rewrite feats_upd_id_ids in Hf by reflexivity.
+        apply in_map_iff in Hf. destruct Hf as [f' [<- Hf']]. exact (g_lt _ _ G _ _ _ Eo Hf').
+      * split; [reflexivity|]. exists ids. split; [reflexivity | exact G].
+    + rewrite ?expect_ok. split; [reflexivity|]. exists ids. split; [reflexivity | exact G].
 Qed.
 
 (* a call of a burst on an existing entity object: one observation, the object stays *)
@@ -726,7 +737,7 @@ Lemma step_base_rds s o :
   | _ => rds s
   end.
 Proof.
-  destruct o as [e ty|e|e|e ty role desc fns|e fid fn r w ps|e|e ty role|t e ty role|t|p c|p c|p|t p|t|e calls|p|add e q i];
+  destruct o as [e ty|e|e|e ty role desc fns|e fid fn r w ps|e|e ty role|t e ty role|t|p c|p c|p|t p|t|e calls|p|add e q i|e fid d];
     unfold step_base, create, take_id, set_objs; simpl;
     repeat (match goal with
             | |- context [match ?x with _ => _ end] => destruct x; simpl
